@@ -136,6 +136,8 @@ def run_case(case, res):
             check_binary(res, "+", UA, PA2, None, UB, PB2, None, dict(data="2d"))
             check_binary(res, "@", UA, PA2, None, UB, PB2, None, dict(data="2d"))
             check_binary(res, "*", UA, PA, None, UB, PB2, None, dict(data="scalar_times_2d"))
+            check_binary(res, "*", UA, PA2, None, UB, PB, None, dict(data="2d_times_scalar"))
+            check_binary(res, "/", UA, PA2, None, UB, PBpos, None, dict(data="2d_over_scalar"))
         # rational operands
         if p <= 1 and q <= 1 and not (quick and (kind == "deep" or p + q == 2 and len(set(UA) | set(UB)) > 3)):
             WA, WB = al.generic_weights(nA), list(reversed(al.generic_weights(nB)))
